@@ -294,6 +294,7 @@ func (st *State) addTrace(ev TraceEv) {
 // Engine-wide fresh names
 
 type Engine struct {
+	resultNames map[string][]string // result names of the functions under contract on the verified tree (fingerprints.json)
 	noDBInv     bool              // flag nodbinv: the database invariant is not assumed while verifying this function
 	loopsSeen   map[string]bool   // loop headers met while executing the function under contract (incl. inlined callees)
 	schemaText  string            // schema.sql of the tree under check (schema obligations)
